@@ -18,6 +18,12 @@ def draw_tab_world(prop: str, rng: random.Random) -> dict:
     world = P.draw_world(rng, solvers=solvers, cfg=cfg, never_converge_p=0.45, shuffle=shuffle)
     if prop == "C12" and rng.random() < 0.12:
         world["ckpt"]["f"] = 0
+    if rng.random() < {"C10": 0.3, "C09": 0.1, "C12": 0.05}.get(prop, 0.0):
+        # a shipped problem rebuilt from YAML (5 solvers x 4 problems x their parameters)
+        world["problem"] = P.draw_shipped_problem(rng)
+        world["solver"]["kw"]["max_batch_size"] = rng.choice([1, 3, 7, 16, 64, 1024])
+        if world["solver"]["cls"] == "PER" and world["problem"]["kind"] == "mirjalili" and rng.random() < 0.5:
+            world["solver"]["kw"]["period"] = 7
     return world
 
 
